@@ -60,15 +60,36 @@ CLAIMS = {
              "price machine; cash() of every criterion (closed forms and the default search, incl. user subclasses, constants, multi-column, target) is compared with the exact "
              "certainty equivalent and with the property's own relations; Hedger.price/compute_loss are compared with the machine's exact price on scripted draws.",
         note="Trusted: TLC, torch, ScriptedPrimary double. Default-search amounts within the documented precision 1e-6."),
+    "C07": dict(
+        engine="BSModule.tla + BSAlgebra.tla / TLC -> replay into modules and functional forms",
+        technique="TLA+ dataflow machine of one pricing-module call (build, acquire inputs in code order, call the formula) checked by TLC against an order-free reference; symbolic homogeneity of the price forms; all terminal states and lattice obligations replayed into the real modules / functional forms",
+        category=MC, design_ref="DESIGN.md 3 C07, 4",
+        text="PARTIAL: decides the second sentence of the property and the strike scaling. BSModule.tla models, for 4 products x 3 ways of building x 6 methods x every subset of caller-given inputs, where each "
+             "formula argument comes from (caller wins, rest from the derivative's simulated state, error without derivative) and which attributes (strike, call flag) reach the formula; TLC checks OutcomeIsReference, "
+             "ExplicitWins, NoPartialValue, PassesWhatIsNeeded; every terminal state is replayed on a scripted market and the module's value compared with this product's functional form at the resolved inputs for the "
+             "derivative's own strike and flag. BSAlgebra.tla derives the homogeneity degree of every price/Greek from the forms; on the lattice, scaling the strike by 2^j at fixed log-moneyness must scale the value by "
+             "2^(j deg). Every module method is compared with the functional form on the whole lattice. NOT decided: equality of the closed forms with the risk-neutral expectation (an integral against the lognormal / "
+             "running-maximum law has no exact finite model); C18 decides the same formulas on the t=0 / sigma=0 boundary and C08 the pricing equation through theta/vega/gamma.",
+        note="Trusted: TLC, torch. A change of a formula that keeps its homogeneity, its boundary values (C18), its Greeks relations (C08) and its no-arbitrage relations (C09) is not detected by C07."),
     "C08": dict(
-        engine="AutoGreek.tla / TLC -> replay with generated pricers",
-        technique="TLA+ dataflow machine of pfhedge.autogreek (ParseLeaf priority, Rederive, Filter, Differentiate) with second-order rational jets of polynomial pricers, checked by TLC against exact central differences; replay into autogreek and module default Greeks",
+        engine="AutoGreek.tla + BSAlgebra.tla / TLC -> replay with generated pricers; lattice obligations on closed forms",
+        technique="TLA+ dataflow machine of pfhedge.autogreek with second-order rational jets of polynomial pricers, checked by TLC against exact central differences and replayed; Greek obligations (which derivative, order, sign) enumerated by TLC over a dyadic lattice and evaluated on the closed forms against autograd of the code's own price",
         category=MC, design_ref="DESIGN.md 3 C08, 4",
-        text="PARTIAL: decides the automatic Greeks. AutoGreek.tla models which spelling is the differentiation leaf, which dependent spellings are recomputed from it and which arguments reach the pricer, per Greek, "
+        text="AutoGreek.tla models which spelling is the differentiation leaf, which dependent spellings are recomputed from it and which arguments reach the pricer, per Greek, "
              "and evaluates polynomial pricers over exact second-order jets; TLC checks PricerCallable, TotalDerivative and JetEqualsCentralDifference for all pricer signatures x caller spellings x points; real pricers with those "
              "signatures are generated and autogreek.delta/gamma/vega/theta and the BSModuleMixin defaults compared with the jets, also with junk lower-priority spellings. "
-             "Equality of the closed-form bs_* Greeks with derivatives of the closed-form prices is NOT decided (differential calculus over erf/exp has no exact finite model).",
-        note="Trusted: TLC, torch.autograd on polynomials. log-moneyness pricers evaluated at S=K only. The European-binary gamma/vega/theta (v*t^2) defect named in the property lies in the undecided part."),
+             "Closed forms: BSAlgebra.tla enumerates, for 4 products x call/put x delta/gamma/vega/theta x every lattice point and running maximum, the obligation 'Greek = sign * d^order price / d var'; each is evaluated "
+             "on the functional forms and on the modules against torch.autograd of the code's own price (spot as the leaf, running maximum fixed), relative tolerance 1e-7. On the lattice only; between lattice points nothing is decided.",
+        note="Trusted: TLC, torch.autograd (polynomials exactly; erf/exp/log kernels for the closed forms). log-moneyness pricers evaluated at S=K only. The European-binary gamma/vega/theta defect named in the property was found by this check and repaired (fix: fa9ca73)."),
+    "C09": dict(
+        engine="BSAlgebra.tla / TLC -> lattice obligations evaluated on the functional forms",
+        technique="TLA+ symbolic linear forms of the price formulas over opaque atoms (parity, complement, homogeneity, branch continuity checked by TLC as identities); relation obligations enumerated by TLC over a dyadic lattice and evaluated on the real code",
+        category="exploration", design_ref="DESIGN.md 3 C09, 4",
+        text="PARTIAL: BSAlgebra.tla transcribes the price formulas term by term as integer linear forms over atoms N(d1), N(d2), ...; TLC checks that the implementation-shaped forms (put = call + K - S, binary put = 1 - call, "
+             "where() by max < strike) equal the definitions and satisfy put-call parity, the binary complement, homogeneity, equality of the lookback branches at max = strike and American binary = 1 at spot = max = strike. "
+             "Every relation C09 names (parity, complement, Greeks of the parity relations, call/put bounds, [0,1], increasing and convex in spot, non-decreasing in volatility and time, lookback >= European and >= locked-in payoff, "
+             "American >= European binary and exactly one once reached, continuity at the branch) is enumerated over the lattice and evaluated on pfhedge.nn.functional in float64. Inequalities are decided on the lattice only.",
+        note="Trusted: TLC, torch. The machine cannot evaluate erf/exp: relations between lattice points are decided by evaluating the code, not by the model; nothing is claimed between lattice points."),
     "C10": dict(
         engine="Sim.tla / TLC -> path-wise replay with supplied normals",
         technique="TLA+ scheme machines (one Step(z) per time step, exact coefficient/rational domains) checked by TLC against closed forms for every sequence of supplied normals; real generators replayed on exactly those normals",
@@ -160,10 +181,7 @@ CLAIMS = {
         note="Trusted: TLC, torch. The helpers are single pure functions: the specification is an exact independent transcription on lattices where the result is exactly representable."),
 }
 
-NOT_APPLICABLE = [
-    {"property_id": "C07", "reason": "equates closed forms in erf/exp with an integral against a continuous law: no exact finite model TLC could evaluate; transcribing the formula into TLA+ would compare the code with itself (DESIGN.md 4)"},
-    {"property_id": "C09", "reason": "inequalities/monotonicity/convexity over a continuum of real parameters: needs numeric sweeps or analysis, not a state machine; only algebraic fragments are expressible and they are a small part of the property (DESIGN.md 4)"},
-]
+NOT_APPLICABLE = []
 
 
 def main() -> None:
